@@ -8,7 +8,7 @@ exactly that generated term, so they are re-checked against what the code says n
 
 Fragment: one function whose parameters are `int`s and `func(int) bool`s; statements `var x = e`, `x = e`,
 `if c {…} [else {…}]`, `for c {…}`, `return e`; integer expressions literal, variable, unary `-` and `^`,
-`+`, `-`, `>>` by a constant (signedness taken from go/types), the conversions `int(·)`/`uint(·)`; conditions
+`+`, `-`, `<<` and `>>` by a constant (signedness taken from go/types; `x op= e` is `x = x op e`), the conversions `int(·)`/`uint(·)`; conditions
 `== != <= <` on ints, `|| && !` (short-circuit, as in Go) and calls of a function parameter.  The
 translator refuses everything else (the generated file then contains `none` and the obligations fail).
 
@@ -30,6 +30,7 @@ inductive Expr where
   | compl (a : Expr)
   | add (a b : Expr)
   | sub (a b : Expr)
+  | shl (a : Expr) (k : Nat)       -- `a << k`
   | shrU (a : Expr) (k : Nat)      -- `a >> k`, `a` of an unsigned type
   | shrS (a : Expr) (k : Nat)      -- `a >> k`, `a` of a signed type
   | conv (a : Expr)                -- `int(a)` / `uint(a)`
@@ -70,6 +71,7 @@ def eval (env : Env) : Expr → Option Int
   | .compl a => (eval env a).map fun v => wrap (-v - 1)
   | .add a b => (eval env a).bind fun v => (eval env b).map fun w => wrap (v + w)
   | .sub a b => (eval env a).bind fun v => (eval env b).map fun w => wrap (v - w)
+  | .shl a k => (eval env a).map fun v => wrap (v * 2 ^ k)
   | .shrU a k => (eval env a).map fun v => wrap ((v % 18446744073709551616) / 2 ^ k)
   | .shrS a k => (eval env a).map fun v => v / 2 ^ k
   | .conv a => eval env a
